@@ -403,18 +403,24 @@ def date(year, month_, day):
     if year < 1900:
         year += 1900
 
-    # taking into account negative month and day values
-    year, month_, day = normalize_year(year, month_, day)
+    # months outside of 1..12 carry into the year
+    year += (month_ - 1) // 12
+    month_ = (month_ - 1) % 12 + 1
 
     try:
-        result = (dt.datetime(year, month_, day) - DATE_ZERO).days
-        if result <= 60:
-            result -= 1
+        result = (dt.datetime(year, month_, 1) - DATE_ZERO).days
     except ValueError:
-        assert (year, month_, day) == LEAP_1900_TUPLE
-        result = 60.0
+        # the month is before year 1 or after year 9999
+        return NUM_ERROR
+    if result <= 60:
+        # excel thinks 1900 is a leap year
+        result -= 1
 
-    if result < 0:
+    # days are counted from the first of the month, so days outside
+    # of the month carry into the neighboring months
+    result += math.floor(day) - 1
+
+    if not (0 <= result < DATE_MAX_INT):
         return NUM_ERROR
     return result
 
